@@ -11,6 +11,57 @@ ASSUMPTIONS = ["theorems are over the reals for the model; float64 round-off of 
 BACKENDS = ["jaxley.thomas", "jaxley.stone", "jax.sparse"]
 
 
+def array_level_charge_cases(viol, rng, n_modules):
+    """the conclusion of C02_array_level_charge_balance_of_every_cell/_network evaluated on the code at the level the
+    theorems speak about: one call of step_voltage_implicit_with_jaxley_spsolve on random cells / networks with the
+    conductances of compute_axial_conductances for random physical parameters, random voltages, vt >= 0, ct, dt:
+    sum_c cm_c area_c [(out_c - v_c) + dt (vt_c out_c - ct_c)] = 0 up to round-off."""
+    import math
+    import numpy as np
+    import jax.numpy as jnp
+    import jaxley as jx
+    import simlib
+    import hineslib
+    from fractions import Fraction as Fr
+    from jaxley.utils.cell_utils import compute_axial_conductances
+    comp = jx.Compartment()
+    n = 0
+    for k in range(n_modules):
+        with simlib.quiet():
+            if k % 3 == 2:
+                cells = []
+                for _ in range(rng.randint(2, 3)):
+                    nb = rng.randint(1, 4)
+                    cells.append((simlib.rand_parents(rng, nb) if nb > 1 else [-1], [2] * nb))
+                m = jx.Network([jx.Cell([jx.Branch([comp] * c) for c in cs], parents=q) for q, cs in cells])
+                case = {"network_of": cells}
+            else:
+                nb = rng.randint(1, 6)
+                parents = simlib.rand_parents(rng, nb) if nb > 1 else [-1]
+                counts = [rng.randint(1, 4) for _ in range(nb)]
+                m = jx.Cell([jx.Branch([comp] * c) for c in counts], parents=parents)
+                case = {"parents": parents, "counts": counts}
+        st = hineslib.structure(m)
+        nc = st["ncomp"]
+        dy = lambda lo, hi, den=8: rng.randint(int(lo * den), int(hi * den)) / den
+        P = {key: [dy(*rg) for _ in range(nc)] for key, rg in (("radius", (0.25, 4)), ("length", (2, 40)), ("axial_resistivity", (500, 8000)), ("capacitance", (0.5, 2)))}
+        g = [float(x) for x in np.asarray(compute_axial_conductances(m._comp_edges, {k_: jnp.asarray(v_) for k_, v_ in P.items()}))]
+        _, v0, vt, ct, dtq = hineslib.random_values(rng, st)
+        W = [P["capacitance"][c] * 2 * math.pi * P["radius"][c] * P["length"][c] for c in range(nc)]
+        for sv in ("jaxley.thomas", "jaxley.stone"):
+            try:
+                out = hineslib.run_real(m, st, g, v0, vt, ct, dtq, sv)
+            except (AssertionError, NotImplementedError, ValueError):
+                continue
+            n += 1
+            terms = [W[c] * ((out[c] - float(v0[c])) + float(dtq) * (float(vt[c]) * out[c] - float(ct[c]))) for c in range(nc)]
+            total, scale = math.fsum(terms), max(1e-300, math.fsum(abs(t) for t in terms))
+            if abs(total) > 1e-8 * scale + 1e-9:
+                viol.append(dict(case, kind="one implicit step does not conserve charge at the array level (sum of cm*area*[(out - v) + dt (vt out - ct)] is not 0)",
+                                 solver=sv, total=total, scale=scale, dt=float(dtq), radius=P["radius"], length=P["length"], axial_resistivity=P["axial_resistivity"], capacitance=P["capacitance"]))
+    return n
+
+
 def run(ctx):
     import numpy as np
     import simlib
@@ -100,6 +151,11 @@ def run(ctx):
             import traceback
             viol.append({"kind": "voltage step raised", "parents": parents, "counts": counts, "backend": vs,
                          "error": repr(ex)[:300], "trace": traceback.format_exc()[-500:]})
+    try:
+        evals += array_level_charge_cases(viol, ctx.rng, ctx.budget(9, 60))
+    except Exception as ex:
+        import traceback
+        viol.append({"kind": "array-level charge cases raised", "error": repr(ex)[:300], "trace": traceback.format_exc()[-500:]})
     for v in viol:
         v.setdefault("finding_class", None)
     return {"evaluations": evals, "distinct_nontrivial": len(distinct),
